@@ -4,7 +4,7 @@ import json
 import common
 from common import cnode, cstr, cbool, enc_node
 import impl
-from impl import extract, to_xml, no_gc
+from impl import extract, to_xml, no_gc, build, altered_default_filters
 import pp_common as pp
 
 REQ = ("From Coq Require Import List NArith.\nFrom Delb.Base Require Import PyStr.\n"
@@ -87,20 +87,20 @@ def check_docs(ctx, xmls, max_sub):
                 if not pp.in_domain_ns(t):
                     continue
                 term = tree_term(nodes[idx], t)
-                g = pick_grid(ctx)
-                try:
-                    real = [pp.real_serialize(nodes[idx], i, 0, a) for i, a in g]
-                except Exception as e:  # noqa: BLE001
-                    ctx.fail("serialize raised %s: %s" % (type(e).__name__, e), {"xml": xml, "subtree": idx}, classify)
-                    continue
-                items.append((kind, xml, idx, t, real, g, term))
+                for g in pick_grids(ctx):
+                    try:
+                        real = [pp.real_serialize(nodes[idx], i, 0, a) for i, a in g]
+                    except Exception as e:  # noqa: BLE001
+                        ctx.fail("serialize raised %s: %s" % (type(e).__name__, e), {"xml": xml, "subtree": idx}, classify)
+                        continue
+                    items.append((kind, xml, idx, t, real, g, term))
             pro = [extract(n) for n in doc.prologue]
             epi = [extract(n) for n in doc.epilogue]
             t = extract(doc.root)
             if pp.in_domain_ns(t) and (pro or epi or ctx.rng.random() < 0.3):
-                g = pick_grid(ctx)
-                real = [pp.real_document(doc, i, 0, a) for i, a in g]
-                docitems.append((kind, xml, pro, t, epi, real, g, tree_term(doc.root, t)))
+                for g in pick_grids(ctx):
+                    real = [pp.real_document(doc, i, 0, a) for i, a in g]
+                    docitems.append((kind, xml, pro, t, epi, real, g, tree_term(doc.root, t)))
     terms = ["run18 %s %s" % (cgrid(g), term) for _, _, _, _, _, g, term in items]
     terms += ["run18doc %s %s %s %s" % (cgrid(g), common.clist(cnode(n) for n in p), term,
                                         common.clist(cnode(n) for n in e)) for _, _, p, _, e, _, g, term in docitems]
@@ -155,14 +155,110 @@ def check_docs(ctx, xmls, max_sub):
                           "simple_doc": strs[2 * gi + 1]}, classify)
 
 
-def pick_grid(ctx):
-    """quick tier: 4 of the 10 option sets per tree (always one aligned and one not), thorough: all"""
+def root_siblings(doc):
+    """prologue and epilogue as they are, read along the sibling axis of the root (not through Document.prologue /
+    Document.epilogue, whose bookkeeping is part of what the history variant tests)"""
+    with altered_default_filters():
+        pro = [extract(n) for n in reversed(list(doc.root.iterate_preceding_siblings()))]
+        epi = [extract(n) for n in doc.root.iterate_following_siblings()]
+    return pro, epi
+
+
+def check_histories(ctx, xmls, steps):
+    """a document that has been serialized before: comments / PIs are then attached next to the root through the node
+    API (root / an existing sibling), through Document.prologue / Document.epilogue (append, prepend, insert), or
+    removed; after every step the indented document is compared with the model / simple_doc of the document as it
+    is now"""
+    docitems = []
+    with no_gc():
+        for kind, xml in xmls:
+            try:
+                doc = pp.load_reduced(xml)
+            except Exception as e:  # noqa: BLE001
+                ctx.notes.append("generator: parser refused a document: %r" % (e,))
+                continue
+            t = extract(doc.root)
+            if not pp.in_domain_ns(t):
+                continue
+            term = tree_term(doc.root, t)
+            ind, align = ctx.rng.choice([g for g in GRID if g[0] != ""])
+            history = []
+            try:
+                pp.real_document(doc, ind, 0, align)            # the earlier serialization
+                for _ in range(steps):
+                    new = build(pp.gen_misc(ctx.rng))
+                    pro, epi = root_siblings(doc)
+                    with altered_default_filters():
+                        before = list(doc.root.iterate_preceding_siblings())
+                        after = list(doc.root.iterate_following_siblings())
+                    op = ctx.rng.choice(["root-before", "root-after", "sibling-before", "sibling-after", "prologue-append",
+                                         "prologue-prepend", "epilogue-append", "epilogue-insert", "prologue-index-sibling",
+                                         "detach"])
+                    history.append(op)
+                    if op == "root-before":
+                        doc.root.add_preceding_siblings(new)
+                    elif op == "root-after":
+                        doc.root.add_following_siblings(new)
+                    elif op == "sibling-before" and before + after:
+                        ctx.rng.choice(before + after).add_preceding_siblings(new)
+                    elif op == "sibling-after" and before + after:
+                        ctx.rng.choice(before + after).add_following_siblings(new)
+                    elif op == "prologue-append":
+                        doc.prologue.append(new)
+                    elif op == "prologue-prepend":
+                        doc.prologue.prepend(new)
+                    elif op == "epilogue-append":
+                        doc.epilogue.append(new)
+                    elif op == "epilogue-insert":
+                        doc.epilogue.insert(ctx.rng.randint(0, len(epi)), new)
+                    elif op == "prologue-index-sibling" and pro:
+                        doc.prologue[ctx.rng.randrange(len(pro))].add_following_siblings(new)
+                    elif op == "detach" and before + after:
+                        ctx.rng.choice(before + after).detach()
+                    else:
+                        history[-1] = "none"
+                        continue
+                    pro, epi = root_siblings(doc)
+                    real = pp.real_document(doc, ind, 0, align)
+                    docitems.append((kind, xml, list(history), pro, t, epi, real, (ind, align), term))
+            except Exception as e:  # noqa: BLE001
+                ctx.fail("document history raised %s: %s" % (type(e).__name__, e),
+                         {"xml": xml, "document": True, "history": history, "indentation": ind, "align": align}, classify)
+    terms = ["run18 %s %s" % (cgrid([g]), term) for _, _, _, _, _, _, _, g, term in docitems]
+    terms += ["run18doc %s %s %s %s" % (cgrid([g]), common.clist(cnode(n) for n in p), term, common.clist(cnode(n) for n in e))
+              for _, _, _, p, _, e, _, g, term in docitems]
+    vals = ctx.coq_eval("c18h", preamble(), terms, chunk=40)
+    n = len(docitems)
+    for k, (kind, xml, history, p, t, e, real, (ind, align), _term) in enumerate(docitems):
+        v0, v = vals[k], vals[n + k]
+        if v0 is None or v is None:
+            ctx.mismatch("pretty_doc model evaluation (history)", "coqc failed on the case file")
+            continue
+        ds, red, _ = decode_run(v0)
+        model, simple = dec_pairs(v, 0)[:2]
+        case = {"xml": xml, "document": True, "history": history, "prologue": p, "epilogue": e, "indentation": ind,
+                "align": align}
+        ctx.count(1, "history/%s" % ("data-style" if ds and red else "other"))
+        if model != real:
+            ctx.fail("indented document after earlier serialization and changes next to the root differs from the "
+                     "document as it is now (pretty_doc of prologue, root, epilogue read along the sibling axis)",
+                     dict(case, impl=real, model=model), classify)
+        elif ds and red and real != simple:
+            ctx.fail("indented document differs from the straightforward recursive printer", dict(case, impl=real, simple_doc=simple),
+                     classify)
+        if ds and red:
+            ctx.nontrivial_case((t, tuple(map(tuple, p)), tuple(map(tuple, e)), ind, align))
+
+
+def pick_grids(ctx):
+    """quick tier: 4 of the 16 option sets per tree (always one aligned and one not); thorough: all, in two halves (one
+    model term each: coqc's stack does not take 16 outputs of a large tree in one list)"""
     if ctx.tier != "quick":
-        return list(GRID)
+        return [GRID[:8], GRID[8:]]
     g = ctx.rng.sample(GRID, 4)
     if all(a for _, a in g) or not any(a for _, a in g):
         g[0] = (g[0][0], not g[0][1])
-    return g
+    return [g]
 
 
 def gen_cases(ctx, n_data, n_mixed):
@@ -211,11 +307,14 @@ def run(ctx, args):
     quick = ctx.tier == "quick"
     xmls = [("fixed", x) for x in FIXED] + gen_cases(ctx, 150 if quick else 1400, 50 if quick else 400)
     check_docs(ctx, xmls, max_sub=3 if quick else 5)
+    hist = [(k, x) for k, x in xmls if k in ("fixed", "data", "ns-data")]
+    check_histories(ctx, ctx.rng.sample(hist, min(len(hist), 40 if quick else 300)), steps=4)
     return ctx.finish(
         rule="documents: fixed small cases + chains of 9-13 nested elements (root and sub-trees at every depth) + random conventionally laid out (data-style) documents of depth <= 3 with "
              "elements, comments, PIs, 0-3 attributes, xml:space directives, optional prologue/epilogue, + random "
              "mixed-content documents + the same with elements in 3 and attributes in 2 namespaces (models run on the qualified view: prefixed names, declarations on the root, as read off the real plain serialization); parsed with reduce_whitespace; serialized from the root, from sampled sub-trees "
              "and as a document with indentation in {'', ' ', '  ', '\\t', ' \\t', '\\n', ' \\n', '\\n '} x align_attributes in {F, T}, width 0 (quick tier: 4 of the 16 option sets per tree, drawn at random). "
+             "History variant: sampled documents are serialized once, then 4 times a comment / PI is attached next to the root (node API on the root or on a sibling, Document.prologue / epilogue append / prepend / insert, indexing) or detached, and after every step the indented document is compared with the model of the document as it is now (prologue / epilogue read along the sibling axis). "
              "One evaluation = one (tree, options) output compared byte for byte with the model; the property demand "
              "(output = simple_pp) applies to data-style reduced trees with a non-empty indentation. "
              "Non-trivial = such a tree of depth >= 1; distinct by (tree, options).")
